@@ -19,9 +19,12 @@ def esc(q):
     if r < 0.8: return BS + 'u' + hex4(rnd.choice([0x41, 0xE9, 0x263A, 0x0, 0x1F, 0xD7FF, 0xE000, 0xFFFF, 0xABCD, 0x00e9, 0xC0DE, 0xFEFF]))
     return BS + 'u' + hex4(rnd.choice([0xD800, 0xD83D, 0xDBFF, 0xDA00])) + BS + 'u' + hex4(rnd.choice([0xDC00, 0xDE00, 0xDFFF, 0xDCAB]))
 PLAINCH = list('abcxyzAZ019 _-.*[](){}$@?!<>=&|,:+~/#%^`;') + ['é', '☺', '𝄞', ' ', ' ', '퟿', '', '\U0010ffff']
+# string bodies that look like query syntax: wherever the parser re-reads matched text they must stay inert
+LOOKALIKE = ['. ', ' .', 'Mr. X', 'e. g.', '.. a', 'a .b', '[ 0]', '[0] ', 'a, b', '?(@)', '@ .a', '$ .', 'a == b', '&& ', '1 :2', 'length (', 'x .y . z', ' a', 'a ', '(', ')', '!', '$', '@', '*', '..', '0', '-1', '1:2', 'true', 'null']
 def strlit():
     q = rnd.choice(["'", '"'])
     other = '"' if q == "'" else "'"
+    if rnd.random() < 0.12: return q + rnd.choice(LOOKALIKE) + q
     body = ''
     for _ in range(rnd.choice([0, 1, 1, 2, 3, 5])):
         r = rnd.random()
